@@ -88,10 +88,13 @@ class Symx:
         self._cparams = {}          # frame -> {const generic name: symbolic value}
 
     # ------------------------------------------------------------------ public
-    def run(self, fn, args=None):
-        """enumerate paths of fn; args: list of symbolic values for parameters 1..argc"""
+    def run(self, fn, args=None, store=None):
+        """enumerate paths of fn; args: list of symbolic values for parameters 1..argc;
+        store: initial contents of storage locations {(root, path): value} (for by-reference args)"""
         self.npaths = 0
         st = State()
+        if store:
+            st.ov.update(store)
         frame = self._new_frame()
         self._bind_args(fn, frame, st, args)
         out = []
